@@ -178,6 +178,18 @@ func (c18) Gen(seed uint64, run int, tier string) *core.Case {
 			if r.IntN(3) == 0 {
 				op.Q = append(op.Q, KV{K: "max-keys", V: []string{"1", "2", "0"}[r.IntN(3)]})
 			}
+			if r.IntN(3) == 0 {
+				// a start position (marker for V1, start-after for V2) and an encoding type
+				pos := []string{"a", "b/", "dir/a", "x+y", "zz"}[r.IntN(5)]
+				if op.Kind == "listv2" {
+					op.Q = append(op.Q, KV{K: "start-after", V: pos})
+				} else {
+					op.Q = append(op.Q, KV{K: "marker", V: pos})
+				}
+			}
+			if r.IntN(6) == 0 {
+				op.Q = append(op.Q, KV{K: "encoding-type", V: "url"})
+			}
 		case x < 62:
 			// a whole multipart upload: create, parts, (list), complete
 			mk := []string{"mp/one", "mp two"}[r.IntN(2)]
